@@ -78,6 +78,9 @@ func registryFor(d Decl) strfmt.Registry {
 		return strfmt.Default
 	}
 	r := strfmt.NewFormats()
+	if d.LateFormats {
+		return r // prepare adds the formats to this registry after the binder was built
+	}
 	addUserFormats(func(name string, f strfmt.Format, v strfmt.Validator) { r.Add(name, f, v) })
 	return r
 }
